@@ -203,6 +203,12 @@ Proof.
   - rewrite IH. destruct (loc_acts rest s) as [s2 o2]. reflexivity.
 Qed.
 
+Lemma loc_act_with m body s : loc_act (AWith m body) s = loc_acts body s.
+Proof.
+  cbn [loc_act]. revert s. induction body as [|a r IH]; intro s; cbn [loc_acts]; [reflexivity |].
+  destruct (loc_act a s) as [s1 o1]. rewrite IH. reflexivity.
+Qed.
+
 Lemma group_step k g x :
   loc_step (OGroupBy k) (live (st_set_groups st0 g)) (Nx x) =
   match find_key (key_of k x) g with
@@ -214,14 +220,22 @@ Proof.
   destruct (find_key (key_of k x) g); reflexivity.
 Qed.
 
+Lemma loc_acts_with_subjcalls m (f : Z * hid -> ev) a s g :
+  loc_acts [AWith m (map (fun p => ASubjCall (snd p) (f p)) g); a] s = loc_acts [a] s.
+Proof.
+  cbn [loc_acts]. rewrite loc_act_with.
+  replace (map (fun p => ASubjCall (snd p) (f p)) g) with (map (fun p => ASubjCall (snd p) (f p)) g ++ []) by apply app_nil_r.
+  rewrite (loc_acts_subjcalls f [] s g). cbn [loc_acts]. destruct (loc_act a s) as [s1 o1]. reflexivity.
+Qed.
+
 Lemma group_end k g en :
   snd (loc_feed (OGroupBy k) (live (st_set_groups st0 g)) (ending_evs en)) = ending_evs en.
 Proof.
   destruct en as [|e|]; cbn [ending_evs loc_feed]; [| | reflexivity].
   - unfold loc_step, live; cbn [l_up l_st handler st_groups st_set_groups st0 is_term].
-    rewrite (loc_acts_subjcalls (fun _ => Co)). reflexivity.
+    rewrite (loc_acts_with_subjcalls MR (fun _ => Co)). reflexivity.
   - unfold loc_step, live; cbn [l_up l_st handler st_groups st_set_groups st0 is_term].
-    rewrite (loc_acts_subjcalls (fun _ => Er e)). reflexivity.
+    rewrite (loc_acts_with_subjcalls MR (fun _ => Er e)). reflexivity.
 Qed.
 
 Lemma group_feed k en : forall xs g seen, ginv g seen ->
